@@ -825,6 +825,28 @@ def avoid_uninit_findings(prog):
                 x["args"] = [a[0], {"e": "bin", "op": "%", "a": a[1], "b": u32(16)}, {"e": "bin", "op": "%", "a": a[2], "b": u32(17)}]
             elif f == "insertBits":
                 x["args"] = [a[0], a[1], {"e": "bin", "op": "%", "a": a[2], "b": u32(16)}, {"e": "bin", "op": "%", "a": a[3], "b": u32(17)}]
+    # module-scope constants of composite type are emitted as OpConstantNull by the SPIR-V backend (recorded finding
+    # spv-module-composite-constant-null, program module_const_composite of lib/spvprogs.py): their uses are
+    # replaced by their (literal-only) initialiser expression, which is the same value by definition
+    comp = {c["n"]: c["e"] for c in p["consts"] if isinstance(c["t"], list)}
+
+    def inline(x):
+        if isinstance(x, list):
+            for i, y in enumerate(x):
+                if isinstance(y, dict) and y.get("e") == "var" and y.get("n") in comp:
+                    x[i] = copy.deepcopy(comp[y["n"]])
+                else:
+                    inline(y)
+        elif isinstance(x, dict):
+            for k, y in list(x.items()):
+                if isinstance(y, dict) and y.get("e") == "var" and y.get("n") in comp:
+                    x[k] = copy.deepcopy(comp[y["n"]])
+                else:
+                    inline(y)
+    if comp:
+        inline(p["funcs"])
+        inline(p["entry"]["body"])
+        inline(p["globals"])
     fix_expr(p["funcs"])
     fix_expr(p["entry"]["body"])
     fix_expr(p["consts"])
